@@ -18,7 +18,8 @@ EXPLANATION = (
     "encoders the API calls feed: encodeString compares the encoded byte count with exactly 65535 and raises a ValueError "
     "subclass, encode16Int range-checks by item assignment into a 2-byte bytearray, and every length prefix CONNECT / "
     "PUBLISH / SUBSCRIBE / UNSUBSCRIBE emit counts the very bytes appended after it (a character count would let a "
-    "multi-byte string past the check). Decides the guards for all paths, not run-time values.")
+    "multi-byte string past the check). Decides the guards for all paths, not run-time values. "
+    " G-STORE holds per argument of a setter; G-TYPE - subscribe()/unsubscribe() accept only on paths where a positive isinstance test of the topic argument succeeded.")
 ASSUMPTIONS = ["arguments compared against integer bounds are integers (strict bounds normalised to inclusive ones)"]
 
 INF = 10 ** 12
